@@ -514,6 +514,8 @@ where
     }
 
     fn init_channel(&mut self, policy: &Policy) {
+        #[cfg(feature = "__verif")]
+        crate::verif::observe(self.verif_id, "InitChannel", "", "");
         let mut channel_senders = vec![];
         let mut channel_receivers = vec![];
         for _ in 0..policy.participants.len() {
